@@ -156,13 +156,17 @@ def check(case, ctx):
         else:
             objs.append(build_input(inp))
             mods.append(model.from_spec(inp))
+    import zlib
+    for i_, o_ in enumerate(objs):
+        common.set_tols(o_, zlib.crc32(repr(input_axes(inputs[i_])).encode()) + i_, ctx.outcomes)
+        common.set_fillattrs(o_, zlib.crc32(repr(input_axes(inputs[i_])).encode()) + i_ + 1, ctx.outcomes)
     join, sort, axis = case["join"], case["sort"], case["axis"]
     if join == 'inner':
         ctx.outcomes['inner-joins'] += 1
     axs = [input_axes(inp) for inp in inputs]
     desc = "align(%s, join=%r, sort=%r, axis=%r)" % (codec.short([{d: l for d, l in a.items()} for a in axs], 300), join, sort, axis)
     seq = tuple(objs) if case["as_tuple"] else list(objs)
-    res, exc = ctx.call(desc, lambda: da.align(seq, join=join, sort=sort, axis=axis), operands=tuple(objs), containers=(seq,))
+    res, exc = ctx.call(desc, lambda: da.align(seq, join=join, sort=sort, axis=axis), operands=tuple(objs), containers=(seq,), ambient=True)
     # "no input array is modified" is part of this property's statement
     for v in ctx.viol:
         if v["property"] == "C15" and v["key"].startswith(("operand-mutated", "input-container-modified")) and not v.get("_c06"):
